@@ -34,6 +34,10 @@ class PostDataMiddleware(Middleware):
 
     def request(self, next, request):
         kwargs = {}
+        if request.mimetype == 'application/x-www-form-urlencoded':
+            # parsing the form consumes the input stream: keep a copy, so
+            # the endpoint can still read the body itself (get_data())
+            request.get_data(cache=True)
         for p_name, p_type in self.params.items():
             kwargs[p_name] = request.form.get(p_name, None, p_type)
         return next(**kwargs)
